@@ -64,11 +64,15 @@ var cmdTable = []tmpl{
 	{"INCRBY", model.TString, 1, true, nil, func(t *rapid.T, k []string) []string {
 		return []string{pick(t, "i", "INCRBY", "DECRBY"), k[0], pick(t, "d", "1", "-3", "9223372036854775807", "-9223372036854775807")}
 	}},
-	{"INCRBYFLOAT", model.TString, 1, true, nil, func(t *rapid.T, k []string) []string { return []string{"INCRBYFLOAT", k[0], pick(t, "f", "0.5", "-1.5", "2")} }},
+	{"INCRBYFLOAT", model.TString, 1, true, nil, func(t *rapid.T, k []string) []string {
+		return []string{"INCRBYFLOAT", k[0], pick(t, "f", "0.5", "-1.5", "2")}
+	}},
 	{"SETBIT", model.TString, 1, true, nil, func(t *rapid.T, k []string) []string {
 		return []string{"SETBIT", k[0], pick(t, "o", "0", "7", "9", "100"), pick(t, "b", "0", "1")}
 	}},
-	{"GETBIT", model.TString, 1, false, nil, func(t *rapid.T, k []string) []string { return []string{"GETBIT", k[0], pick(t, "o", "0", "7", "9", "100")} }},
+	{"GETBIT", model.TString, 1, false, nil, func(t *rapid.T, k []string) []string {
+		return []string{"GETBIT", k[0], pick(t, "o", "0", "7", "9", "100")}
+	}},
 	{"BITCOUNT", model.TString, 1, false, nil, func(t *rapid.T, k []string) []string { return []string{"BITCOUNT", k[0]} }},
 	{"BITPOS", model.TString, 1, false, nil, func(t *rapid.T, k []string) []string { return []string{"BITPOS", k[0], pick(t, "b", "0", "1")} }},
 	{"BITFIELDGET", model.TString, 1, false, nil, func(t *rapid.T, k []string) []string { return []string{"BITFIELD", k[0], "GET", "u4", "0"} }},
@@ -109,11 +113,15 @@ var cmdTable = []tmpl{
 		return []string{"LMPOP", "2", k[0], k[1], pick(t, "a", "LEFT", "RIGHT"), "COUNT", pick(t, "n", "1", "2", "10")}
 	}},
 	// hashes
-	{"HSET", model.THash, 1, true, nil, func(t *rapid.T, k []string) []string { return []string{pick(t, "h", "HSET", "HMSET"), k[0], fld(t), el(t)} }},
+	{"HSET", model.THash, 1, true, nil, func(t *rapid.T, k []string) []string {
+		return []string{pick(t, "h", "HSET", "HMSET"), k[0], fld(t), el(t)}
+	}},
 	{"HSETNX", model.THash, 1, true, nil, func(t *rapid.T, k []string) []string { return []string{"HSETNX", k[0], fld(t), el(t)} }},
 	{"HGET", model.THash, 1, false, nil, func(t *rapid.T, k []string) []string { return []string{"HGET", k[0], fld(t)} }},
 	{"HMGET", model.THash, 1, false, nil, func(t *rapid.T, k []string) []string { return []string{"HMGET", k[0], fld(t), fld(t)} }},
-	{"HGETALL", model.THash, 1, false, nil, func(t *rapid.T, k []string) []string { return []string{pick(t, "h", "HGETALL", "HKEYS", "HVALS"), k[0]} }},
+	{"HGETALL", model.THash, 1, false, nil, func(t *rapid.T, k []string) []string {
+		return []string{pick(t, "h", "HGETALL", "HKEYS", "HVALS"), k[0]}
+	}},
 	{"HLEN", model.THash, 1, false, nil, func(t *rapid.T, k []string) []string { return []string{"HLEN", k[0]} }},
 	{"HEXISTS", model.THash, 1, false, nil, func(t *rapid.T, k []string) []string { return []string{"HEXISTS", k[0], fld(t)} }},
 	{"HSTRLEN", model.THash, 1, false, nil, func(t *rapid.T, k []string) []string { return []string{"HSTRLEN", k[0], fld(t)} }},
@@ -121,7 +129,9 @@ var cmdTable = []tmpl{
 	{"HINCRBY", model.THash, 1, true, nil, func(t *rapid.T, k []string) []string {
 		return []string{"HINCRBY", k[0], fld(t), pick(t, "d", "1", "-3", "9223372036854775807")}
 	}},
-	{"HINCRBYFLOAT", model.THash, 1, true, nil, func(t *rapid.T, k []string) []string { return []string{"HINCRBYFLOAT", k[0], fld(t), pick(t, "f", "0.5", "-1.5")} }},
+	{"HINCRBYFLOAT", model.THash, 1, true, nil, func(t *rapid.T, k []string) []string {
+		return []string{"HINCRBYFLOAT", k[0], fld(t), pick(t, "f", "0.5", "-1.5")}
+	}},
 	{"HRANDFIELD", model.THash, 1, false, nil, func(t *rapid.T, k []string) []string {
 		return append([]string{"HRANDFIELD", k[0]}, pick(t, "c", []string{}, []string{"2"}, []string{"-3", "WITHVALUES"})...)
 	}},
@@ -145,7 +155,9 @@ var cmdTable = []tmpl{
 	}},
 	// keyspace (type agnostic)
 	{"DEL", model.TNone, 2, true, noWT, func(t *rapid.T, k []string) []string { return []string{pick(t, "d", "DEL", "UNLINK"), k[0], k[1]} }},
-	{"EXISTS", model.TNone, 2, false, noWT, func(t *rapid.T, k []string) []string { return []string{pick(t, "e", "EXISTS", "TOUCH"), k[0], k[1], k[0]} }},
+	{"EXISTS", model.TNone, 2, false, noWT, func(t *rapid.T, k []string) []string {
+		return []string{pick(t, "e", "EXISTS", "TOUCH"), k[0], k[1], k[0]}
+	}},
 	{"TYPE", model.TNone, 1, false, noWT, func(t *rapid.T, k []string) []string { return []string{"TYPE", k[0]} }},
 	{"RENAME", model.TNone, 2, true, noWT, func(t *rapid.T, k []string) []string { return []string{pick(t, "r", "RENAME", "RENAMENX"), k[0], k[1]} }},
 	{"COPY", model.TNone, 2, true, noWT, func(t *rapid.T, k []string) []string {
